@@ -48,9 +48,15 @@ def Rel.SqlLeafTree : Rel → Prop
        | _ => True)
   | _ => False
 
+/-- A Transfer node whose destination differs from its source's engine (the factory refuses any other). -/
+def Rel.isTransferToOther : Rel → Prop
+  | .transfer _ d t => d ≠ t.engine
+  | _ => False
+
 /-- A multi-engine tree whose operations run in iteration engines: leaves, unary operations, chains,
-materializations of single-engine subtrees, transfers between iteration engines (statically trivial ones included)
-and transfers OUT OF A SQL ENGINE whose source is a raw SQL tree over leaves. -/
+materializations of single-engine subtrees AND materializations directly after a transfer, transfers between
+iteration engines (statically trivial ones included) and transfers OUT OF A SQL ENGINE whose source is a raw SQL
+tree over leaves. -/
 def Rel.MultiIter : Rel → Prop
   | .leaf _ e _ _ _ _ p _ => e.kind = .iter ∧ p = true
   | .unary op t _ => Rel.MultiIter t ∧ op.isIdentity = false ∧ op.arityOk = true
@@ -58,7 +64,8 @@ def Rel.MultiIter : Rel → Prop
       (match op with
        | .chain => True
        | _ => False)
-  | .mat _ _ t => t.engine.kind = .iter ∧ Rel.PlainIter t.engine t ∧ t.IterOK
+  | .mat _ _ t => t.engine.kind = .iter ∧
+      ((Rel.PlainIter t.engine t ∧ t.IterOK) ∨ (Rel.MultiIter t ∧ t.isTransferToOther))
   | .transfer _ d t => d.kind = .iter ∧
       ((t.engine.kind = .iter ∧ Rel.MultiIter t) ∨ (t.engine.kind = .sql ∧ t.RawSql ∧ t.SqlLeafTree))
   | .select .. => False
@@ -69,6 +76,7 @@ theorem (C02). -/
 def Rel.SqlSrcOK (σ : Leaves) (sq0 : SqlState) : Rel → Prop
   | .unary _ t _ => Rel.SqlSrcOK σ sq0 t
   | .binary _ l r _ => Rel.SqlSrcOK σ sq0 l ∧ Rel.SqlSrcOK σ sq0 r
+  | .mat _ _ t => Rel.SqlSrcOK σ sq0 t
   | .transfer _ _ t =>
     (t.engine.kind = .sql → t.Faithful sq0 sq0.tables σ ∧
       ∀ st c, conform st defaultFuel t = .ok c → (c.get t).structReady sq0 = true) ∧
